@@ -217,8 +217,10 @@ func combineTypes(types []*Type) *Type {
 	combinedT := types[0]
 	for _, t := range types[1:] {
 		if combinedT.Equals(t) {
-			if t.Fixed {
-				combinedT = t // remember that a variable's fixed type is involved
+			// remember that a variable's fixed type is involved, at
+			// whichever nesting level it is
+			if fixedDepth(t) < fixedDepth(combinedT) {
+				combinedT = t
 			}
 			continue
 		}
@@ -234,7 +236,17 @@ func combineTypes(types []*Type) *Type {
 			}
 		}
 		if t.Fixed || combinedT.Fixed {
-			return ANY_TYPE
+			// a variable keeps its type, the other values must be
+			// constants that convert to it
+			switch {
+			case t.Fixed && !combinedT.Fixed && t.accepts(combinedT):
+				combinedT = t
+			case combinedT.Fixed && !t.Fixed && combinedT.accepts(t):
+				// keep combinedT
+			default:
+				return ANY_TYPE
+			}
+			continue
 		}
 		if (t.Name == ARRAY || t.Name == MAP) && t.Name == combinedT.Name {
 			switch {
@@ -252,4 +264,17 @@ func combineTypes(types []*Type) *Type {
 		return ANY_TYPE
 	}
 	return combinedT
+}
+
+// fixedDepth returns the nesting level at which t becomes the fixed type of
+// a variable, or a level below all of t if it is a literal's type throughout.
+func fixedDepth(t *Type) int {
+	depth := 0
+	for ; t != nil && !t.Fixed; t = t.Sub {
+		depth++
+	}
+	if t == nil {
+		depth++
+	}
+	return depth
 }
